@@ -48,9 +48,9 @@ func checkC19(c *Ctx) {
 			c.OK("taint", key, s.pos, s.guard)
 			continue
 		}
-		c.Fail("taint", key, s.pos, "the "+s.field+" of this diagnostic is computed from the content of an evaluated value; if that value is marked the message reveals it", e.chain(s.val)...)
+		c.Fail("taint", key, s.pos, "the "+s.field+" of this diagnostic is computed from the content of an evaluated value; if that value is marked the message reveals it"+guardNote(s.guard), e.chain(s.val)...)
 	}
-	c.Floor("taint sinks", n, 400, "Summary and Detail stores of ≈ 250 diagnostics in the evaluation packages")
+	c.Floor("taint sinks", n, 300, "Summary and Detail stores of ≈ 250 diagnostics in the evaluation packages")
 
 	c19TextWriter(c)
 	c.NotCovered("leaks through go-cty conversion error texts and through application-supplied function errors (trusted / out of scope by the property's last sentence)")
@@ -107,4 +107,11 @@ func c19TextWriter(c *Ctx) {
 	if !descends {
 		c.OK("textwriter", FuncName(vs)+":no-descent", vs.Pos(), "prints only top-level facts of collections")
 	}
+}
+
+func guardNote(why string) string {
+	if why == "" {
+		return ""
+	}
+	return " (" + why + ")"
 }
